@@ -69,6 +69,7 @@ type caseJSON struct {
 	Chunks    []chunkJSON `json:"chunks,omitempty"`
 	BodyLimit int         `json:"body_limit,omitempty"` // SecRequestBodyLimit
 	Reject    bool        `json:"reject,omitempty"`     // SecRequestBodyLimitAction Reject (else ProcessPartial)
+	InMem     int         `json:"in_mem,omitempty"`     // SecRequestBodyInMemoryLimit (0 = default)
 	// mptrunc: multipart parts in order (file when filename != ""), the body is cut after Cut bytes
 	Parts   [][3]string `json:"parts,omitempty"`
 	Cut     int         `json:"cut,omitempty"`
@@ -376,6 +377,7 @@ type wafKey struct {
 	ctl           string
 	bodyLimit     int  // SecRequestBodyLimit (0 = default)
 	reject        bool // SecRequestBodyLimitAction Reject (else ProcessPartial) when bodyLimit > 0
+	inMem         int  // SecRequestBodyInMemoryLimit (0 = default: the body limit)
 }
 
 var wafs = map[wafKey]coraza.WAF{}
@@ -416,6 +418,9 @@ func getWAF(k wafKey) (coraza.WAF, error) {
 		} else {
 			d.WriteString("SecRequestBodyLimitAction ProcessPartial\n")
 		}
+	}
+	if k.inMem > 0 {
+		fmt.Fprintf(&d, "SecRequestBodyInMemoryLimit %d\n", k.inMem)
 	}
 	if k.ctl != "" {
 		fmt.Fprintf(&d, "SecAction \"id:1,phase:1,nolog,pass,ctl:requestBodyProcessor=%s\"\n", k.ctl)
